@@ -1099,7 +1099,8 @@ def parse_multipart_form_data(
     if final_boundary_index == -1:
         raise HTTPInputError("Invalid multipart/form-data: no final boundary found")
     parts = data[:final_boundary_index].split(b"--" + boundary + b"\r\n")
-    if len(parts) > config.max_parts:
+    # The first element is the preamble before the first boundary, not a part.
+    if len(parts) - 1 > config.max_parts:
         raise HTTPInputError("multipart/form-data has too many parts")
     for part in parts:
         if not part:
